@@ -1784,7 +1784,7 @@ theorem comm_blocks (banned : List Kind) (a b : BTree) (ha : isInterBlockH a = t
 theorem swap_rrel_gen (banned : List Kind) (pre post : List BTree) (a b : BTree)
     (hka : a.dir.kind ≠ .TAG) (hkb : b.dir.kind ≠ .TAG) (hpre : pre ≠ [])
     (hcomm : ∀ x, BuildInv.Inv x → RRel Sim (addForest banned [] [a, b] x) (addForest banned [] [b, a] x))
-    (hpaths : (pathsForest [] (pre ++ a :: b :: post) none).isOk = (pathsForest [] (pre ++ b :: a :: post) none).isOk) :
+    (hpaths : (pathsForest [] (pre ++ a :: b :: post) []).isOk = (pathsForest [] (pre ++ b :: a :: post) []).isOk) :
     RRel Sim (compile banned (pre ++ a :: b :: post)) (compile banned (pre ++ b :: a :: post)) := by
   rw [compile_eq, compile_eq, collectTags_swap_eq pre post a b hka hkb]
   cases hc : collectTags (pre ++ b :: a :: post) {} with
@@ -1801,13 +1801,13 @@ theorem swap_rrel_gen (banned : List Kind) (pre post : List BTree) (a b : BTree)
     | ok u =>
       cases u
       rw [h2.1 ht, ok_bind, ok_bind, headCheck_swap pre post a b hpre]
-      cases hp1 : pathsForest [] (pre ++ a :: b :: post) none with
+      cases hp1 : pathsForest [] (pre ++ a :: b :: post) [] with
       | error e =>
-        cases hp2 : pathsForest [] (pre ++ b :: a :: post) none with
+        cases hp2 : pathsForest [] (pre ++ b :: a :: post) [] with
         | error e' => trivial
         | ok l => rw [hp1, hp2] at hpaths; cases hpaths
       | ok l =>
-        cases hp2 : pathsForest [] (pre ++ b :: a :: post) none with
+        cases hp2 : pathsForest [] (pre ++ b :: a :: post) [] with
         | error e' => rw [hp1, hp2] at hpaths; cases hpaths
         | ok l' =>
           rw [ok_bind, ok_bind]
@@ -1829,7 +1829,7 @@ theorem swap_rrel_gen (banned : List Kind) (pre post : List BTree) (a b : BTree)
 
 theorem swap_blocks_rrel (banned : List Kind) (pre post : List BTree) (a b : BTree)
     (ha : isInterBlockH a = true) (hb : isInterBlockH b = true) (hpre : pre ≠ [])
-    (hpaths : (pathsForest [] (pre ++ a :: b :: post) none).isOk = (pathsForest [] (pre ++ b :: a :: post) none).isOk) :
+    (hpaths : (pathsForest [] (pre ++ a :: b :: post) []).isOk = (pathsForest [] (pre ++ b :: a :: post) []).isOk) :
     RRel Sim (compile banned (pre ++ a :: b :: post)) (compile banned (pre ++ b :: a :: post)) := by
   have root : ∀ t, isInterBlockH t = true → t.dir.kind ≠ .TAG := by
     intro t h e
